@@ -121,10 +121,11 @@ CoordCalls ==
 DrawCalls ==
   CASE Profile = "stack"  -> {Call("DrawPath", <<2,1>>), Call("DrawText", <<0,0>>)}
     [] Profile = "zorder" -> {Call("DrawPath", <<0,0>>), Call("DrawImage", <<2,1>>), Call("DrawText", <<2,1>>)}
-    [] Profile = "canvas" -> {Call("DrawPath", <<2,1>>), Call("DrawImage", <<0,0>>)}
+    [] Profile = "canvas" -> {Call("DrawPath", <<2,1>>), Call("DrawImage", <<0,0>>), Call("DrawLine", <<1,2>>)}
     [] OTHER ->
         {Call("DrawPath", p) : p \in Pos} \cup {Call("DrawText", p) : p \in Pos} \cup {Call("DrawImage", p) : p \in Pos}
         \cup {Call("Fill", <<>>), Call("Stroke", <<>>), Call("FillStroke", <<>>)}
+        \cup {Call("DrawLine", <<1,2>>)}
 
 CanvasCalls ==
   CASE Profile = "stack"  -> {}
@@ -171,6 +172,7 @@ PathLayer(s, m) == [z |-> z, kind |-> "path", m |-> m, st |-> s, step |-> Step]
 DrawC(c) ==
     /\ layers' =
         CASE c.op = "DrawPath"   -> IF HasFill(st) \/ HasStroke(st) THEN Append(layers, PathLayer(st, DrawMatrix(c.a[1], c.a[2]))) ELSE layers
+          [] c.op = "DrawLine"   -> IF HasFill(st) \/ HasStroke(st) THEN Append(layers, [PathLayer(st, DrawMatrix(c.a[1], c.a[2])) EXCEPT !.kind = "line"]) ELSE layers
           [] c.op = "DrawText"   -> Append(layers, [z |-> z, kind |-> "text", m |-> TextMatrix(c.a[1], c.a[2]), st |-> DefaultStyle, step |-> Step])
           [] c.op = "DrawImage"  -> Append(layers, [z |-> z, kind |-> "image", m |-> ImageMatrix(c.a[1], c.a[2]), st |-> DefaultStyle, step |-> Step])
           [] c.op = "Fill"       -> LET s == [st EXCEPT !.stroke = "none"] IN
@@ -187,14 +189,18 @@ Max(S) == CHOOSE v \in S : \A w \in S : w <= v
 LocalBox2(l) ==   \* twice the local bounds
     IF l.kind = "path" THEN LET hw2 == IF HasStroke(l.st) THEN l.st.width ELSE 0    \* 2 * (width/2)
                             IN <<0 - hw2, 0 - hw2, 8 + hw2, 6 + hw2>>
+    ELSE IF l.kind = "line" THEN LET hw2 == IF HasStroke(l.st) THEN l.st.width ELSE 0       \* the horizontal line (0,0)-(6,0)
+                                 IN <<0 - hw2, 0 - hw2, 12 + hw2, 0 + hw2>>
     ELSE IF l.kind = "image" THEN <<0, 0, 2*ImgW, 2*ImgH>>
     ELSE <<0,0,0,0>>                                                               \* text: not modelled (Fit is disabled when text is present)
 Box2(l) == LET b == LocalBox2(l)
                m2 == <<l.m[1], l.m[2], 2*l.m[3], l.m[4], l.m[5], 2*l.m[6]>>        \* acts on doubled coordinates
                cs == {MDot(m2, <<b[1],b[2]>>), MDot(m2, <<b[3],b[2]>>), MDot(m2, <<b[3],b[4]>>), MDot(m2, <<b[1],b[4]>>)}
            IN << Min({c[1] : c \in cs}), Min({c[2] : c \in cs}), Max({c[1] : c \in cs}), Max({c[2] : c \in cs}) >>
-ContentBox2 == IF layers = <<>> THEN <<0,0,0,0>>
-               ELSE LET bs == {Box2(layers[i]) : i \in 1..Len(layers)}
+\* canvas.Fit skips layers whose (stroke-expanded) local bounds have zero width or height: they have no extent
+HasExtent(l) == LET b == LocalBox2(l) IN b[1] # b[3] /\ b[2] # b[4]
+ContentBox2 == IF \A i \in 1..Len(layers) : ~HasExtent(layers[i]) THEN <<0,0,0,0>>
+               ELSE LET bs == {Box2(layers[i]) : i \in {j \in 1..Len(layers) : HasExtent(layers[j])}}
                     IN << Min({b[1] : b \in bs}), Min({b[2] : b \in bs}), Max({b[3] : b \in bs}), Max({b[4] : b \in bs}) >>
 HasText == \E i \in 1..Len(layers) : layers[i].kind = "text"
 Even4(b) == \A i \in 1..4 : b[i] % 2 = 0
@@ -244,7 +250,7 @@ LayersStable == [][ /\ Len(layers') >= Len(layers)
 \* the replay order is ascending in z and, within a z, in drawing order
 OrderOK == LET r == RenderOrder IN \A i, j \in 1..Len(r) : i < j => (r[i].z < r[j].z \/ (r[i].z = r[j].z /\ r[i].step <= r[j].step))
 \* after Fit(g) the content box is exactly [g, W-g] x [g, H-g]
-FitPost == (hist # <<>> /\ hist[Len(hist)].op = "CanvasFit" /\ layers # <<>>) =>
+FitPost == (hist # <<>> /\ hist[Len(hist)].op = "CanvasFit" /\ \E i \in 1..Len(layers) : HasExtent(layers[i])) =>
               LET g == hist[Len(hist)].a[1] b == ContentBox2 IN
               b = <<2*g, 2*g, 2*(W - g), 2*(H - g)>>
 \* Pop after Push restores the state for any nesting: the stack holds exactly the states at the unmatched pushes
